@@ -259,9 +259,10 @@ def time_alphabet(backend, mode):
         if backend == "mem":
             return 500, [0, 0, 500, 1000, 1500, 2000, 5000, LONG], [500, 1000, 1500, 2000, 5000]
         return 1000, [0, 0, 1000, 2000, 3000, 5000, LONG], [1000, 1000, 2000, 3000, 5000]
-    # real sleeps: memory deadlines sit 250 ms off the 500 ms sleep grid; SQLite starts 20 ms into a second
+    # real sleeps: memory deadlines sit 250 ms off the 500 ms sleep grid (so remaining TTLs are = 250 mod 500 and
+    # rounding up to q = 500 absorbs the scheduling jitter in either direction); SQLite starts 20 ms into a second
     if backend == "mem":
-        return 250, [0, 250, 750, 1250, 1750, LONG], [500, 1000]
+        return 500, [0, 250, 750, 1250, 1750, LONG + 250], [500, 1000]
     return 250, [0, 250, 750, 1250, 1750, 2250, LONG], [500, 1000]
 
 
@@ -732,7 +733,7 @@ def run(R):
         R.log("source shape:", p)
     # --- cases
     quick = R.tier == "quick"
-    n_gen = 2500 if quick else 60000
+    n_gen = 5000 if quick else 60000
     n_real = 0 if quick else 48
     if R.replay:
         rp = json.load(open(R.replay))["replay"]
